@@ -6,6 +6,8 @@
 package main
 
 import (
+	"net/url"
+	"net/http/httptest"
 	"bufio"
 	"context"
 	"encoding/json"
@@ -177,6 +179,19 @@ func main() {
 		if len(samples) < 2 && len(c.Coll) > 4 && len(c.Word) > 2 && c.Ps == 2 {
 			samples = append(samples, line)
 		}
+		b, _ := json.Marshal(line)
+		w.Write(b)
+		w.WriteByte('\n')
+	}
+	// the page size a request asks for, as the controllers obtain it: whatever the parameter says, a page holds
+	// at least one item or the request is refused (a page size of zero makes every traversal endless)
+	for _, param := range []string{"", "0", "00", "+0", "1", "15", "1000", "4294967295", "4294967296", "-1", "abc", "1.5", " 3"} {
+		req := httptest.NewRequest("GET", "/x?pageSize="+url.QueryEscape(param), nil)
+		if param == "" {
+			req = httptest.NewRequest("GET", "/x", nil)
+		}
+		size, err := bunpaginate.GetPageSize(req)
+		line := map[string]any{"mode": "pagesize", "steps": []any{}, "real": []any{}, "pageSizeParam": param, "pageSize": size, "pageSizeErr": err != nil}
 		b, _ := json.Marshal(line)
 		w.Write(b)
 		w.WriteByte('\n')
